@@ -171,6 +171,20 @@ Theorem C10_load_precedes_all_records : forall base tab ctor rest clk c' recs dl
 Proof. exact load_precedes_all_records. Qed.
 Print Assumptions C10_load_precedes_all_records.
 
+(* the same two statements for the wrapper as built: [wrap_dlopen_clock_first] is derived from the
+   C text of libmcount/wrap.c on every run (is mcount_gettime() called before real_dlopen()?) *)
+Theorem C10_load_precedes_ctor_records_as_built : forall base tab ctor clk c' recs dls,
+  run_act wrap_dlopen_clock_first (ADlopen base tab ctor) clk = (c', recs, dls) ->
+  In (mkDl clk base tab) dls /\ (forall t a, In (t, a) recs -> clk < t) /\ clk < c'.
+Proof. exact load_precedes_ctor_records_as_built. Qed.
+Print Assumptions C10_load_precedes_ctor_records_as_built.
+
+Theorem C10_load_precedes_all_records_as_built : forall base tab ctor rest clk c' recs dls,
+  run_acts wrap_dlopen_clock_first (ADlopen base tab ctor :: rest) clk = (c', recs, dls) ->
+  In (mkDl clk base tab) dls /\ (forall t a, In (t, a) recs -> clk < t).
+Proof. exact load_precedes_all_records_as_built. Qed.
+Print Assumptions C10_load_precedes_all_records_as_built.
+
 (* a library whose load event is not later than the record is searched for it *)
 Theorem C10_loaded_library_is_searched : forall d t a, d_time d <= t ->
   dl_hit t a d = find_sym (d_tab d) ((a - d_base d) mod W64).
